@@ -76,7 +76,7 @@ def coq_view(v, case):
              cbool(v["vok"]), cZ(v["vca"]), vkeys))
 
 
-BROKEN = ("{| k_steps := [(ODelete \"x\", {| t_valid := true; t_delivered := true; t_res := 3; t_hosts := []; t_x := [] |})]; "
+BROKEN = ("{| k_steps := [(ODelete \"x\", {| t_valid := true; t_fvalid := true; t_delivered := true; t_res := 3; t_hosts := []; t_x := [] |})]; "
           "k_probes := {| pb_eps := []; pb_schemas := []; pb_verbs := []; pb_hosts := [] |}; k_clusters := []; "
           "k_latest := []; k_obs := {| ob_hot := []; ob_fresh := [absent_view]; ob_fresh_res := [] |} |}")
 
@@ -86,8 +86,9 @@ def coq_case(case, obs):
         return BROKEN
     steps = []
     for p, s in zip(case["ops"], obs["steps"]):
-        steps.append(cpair(coq_op(p), "{| t_valid := %s; t_delivered := %s; t_res := %s; t_hosts := []; t_x := [] |}" %
-                           (cbool(s["valid"]), cbool(s["delivered"]), cZ(RESCODE.get(s["res"], 3)))))
+        steps.append(cpair(coq_op(p), "{| t_valid := %s; t_fvalid := %s; t_delivered := %s; t_res := %s; t_hosts := []; t_x := [] |}" %
+                           (cbool(s["valid"]), cbool(s.get("fvalid", False)), cbool(s["delivered"]),
+                            cZ(RESCODE.get(s["res"], 3)))))
     probes = ("{| pb_eps := %s; pb_schemas := %s; pb_verbs := %s; pb_hosts := %s |}" %
               (clist([cZ(e) for e in range(c10gen.NEP)]), clist([cstr(s) for s in case["schemas"]]),
                clist([cstr(v) for v in VERBS]), clist([cstr(h) for h in case["hosts"]])))
@@ -156,6 +157,9 @@ def corpus():
                  [b"a"], [b"x"]))
     cs.append(mk([AP(O(b"a", sn=[b"x"], log=1)), AP(O(b"a", sn=[b"y"], log=2)), RETRY(1), DEL(b"a"), RETRY(1),
                   AP(O(b"a", sn=[b"x"]))], [b"a"], [b"x", b"y"]))
+    # admission race: v2 rejected (name conflict with b) and requeued, v3 synced, b deleted, stale v2 re-delivered
+    cs.append(mk([AP(O(b"b", sn=[b"x"])), AP(O(b"a", log=1)), AP(O(b"a", sn=[b"x"], gates=[(1, 1)], cert=1, key=1), force=True),
+                  AP(O(b"a", sn=[b"y"], log=2)), DEL(b"b"), RETRY(2)], [b"a", b"b"], [b"x", b"y"]))
     # flow control: delete and re-add, type change, resize, duplicate use by policies, default schema
     cs.append(mk([AP(O(b"a", fc=[S(b"s1", 1, 5), S(b"s2", 2, 5, 10)], pol=[P(["get"], b"s1"), P(["*"], b"s2")])),
                   AP(O(b"a", fc=[S(b"s2", 1, 7)], pol=[P(["*"], b"s2")])),
@@ -183,7 +187,7 @@ def corpus():
 
 
 def generate(rng, tier, scale=1):
-    n_clean, n_retry, n_rob = (110, 40, 30) if tier == "quick" else (3000, 1000, 600)
+    n_clean, n_retry, n_rob, n_conf = (100, 30, 25, 25) if tier == "quick" else (3000, 1000, 600, 600)
     cs = []
 
     def one(**kw):
@@ -197,6 +201,10 @@ def generate(rng, tier, scale=1):
         cs.append(one())
     for _ in range(n_retry * scale):
         cs.append(one(p_retry=25))
+    for _ in range(n_conf * scale):   # admission races: a rejected version is requeued and re-delivered later
+        c = c10gen.gen_conflict_history(rng)
+        c["nosteps"] = True
+        cs.append(c)
     for _ in range(n_rob * scale):
         cs.append(one(p_force=15, p_invalid=15, p_retry=10, p_gap=5))
     return cs
